@@ -140,7 +140,10 @@ def placed_spec(rng, sym):
                  {"kind": "phasor", "box": box, "name": "P" + tag, "opts": dict(o)},
                  {"kind": "phasor", "box": box, "name": "Pr" + tag, "pair_of": "P" + tag, "opts": dict(o, reduce_volume=True)},
                  {"kind": "poynting", "box": box, "name": "S" + tag, "opts": dict(o, reduce_volume=False, fixed_propagation_axis=1)},
-                 {"kind": "poynting", "box": box, "name": "Sr" + tag, "pair_of": "S" + tag, "opts": dict(o, reduce_volume=True, fixed_propagation_axis=1)}]
+                 {"kind": "poynting", "box": box, "name": "Sr" + tag, "pair_of": "S" + tag, "opts": dict(o, reduce_volume=True, fixed_propagation_axis=1)},
+                 {"kind": "poynting", "box": box, "name": "Sk" + tag, "opts": dict(o, reduce_volume=False, fixed_propagation_axis=2, keep_all_components=True)},
+                 {"kind": "poynting", "box": box, "name": "Skr" + tag, "pair_of": "Sk" + tag,
+                  "opts": dict(o, reduce_volume=True, fixed_propagation_axis=2, keep_all_components=True)}]
     dets += [{"kind": "field", "box": inner, "name": "Fin", "opts": {}}, {"kind": "energy", "box": up, "name": "Eup", "opts": {}}]
     for d in dets:
         d["opts"]["direction"] = "+" if d["kind"] == "poynting" else None
@@ -604,6 +607,5 @@ LEVEL_TEXT = ("Theorems (any field of scalars, any rank, every shape): restrict 
               "arguments); model vs unfold_fields / unfold_array / _unfold_one_detector / unfold_detector_states on all symmetry tuples and "
               "detector kinds, exact rational comparison.")
 LEVEL_NOTE = ("Trusted: Coq kernel; translator; nested-list array model (concatenate shape errors not modelled); harness flattening of leading "
-              "axes and re/im split; straddles_symmetry_plane read from the implementation; keep_all_components flux detectors are exercised "
-              "through _unfold_one_detector only (they cannot be placed on a volume box in this revision).")
+              "axes and re/im split; straddles_symmetry_plane read from the implementation.")
 TECHNIQUE = "Coq proof (induction over rank and lists, ring/field) + ast translator + exact differential checks"
